@@ -243,6 +243,9 @@ def run(chk, tier):
                 analyse_function(chk, db, sigs, owner, kind, rq, f, state)
                 nfun += 1
             rule_of_five(chk, db, rq)
+    nvt = L.vt_rule(chk, db, sigs, "VT")
+    if nvt < 8:
+        chk.analysis_broken("VT: only %d special members of table-dispatching owners analysed (floor 8)" % nvt)
     nsrc = L.const_source_rule(chk, db, sigs, "SRC")
     if nsrc < 2:
         chk.analysis_broken("SRC: only %d copying members of slot-based owners found (floor 2)" % nsrc)
